@@ -260,10 +260,10 @@ Definition lsren (rg rl : N -> N) (st : lstmt) : lstmt :=
   end.
 Definition atall (okfn : ident -> Prop) (D L : N -> Prop) (a : ident * lvalue) : Prop := lvall okfn D L (snd a).
 Definition amap_plain (m : amap) : Prop := Forall (fun kv => vall noid (snd kv)) m.
-Definition lsall (okfn : ident -> Prop) (D L : N -> Prop) (st : lstmt) : Prop :=
+Definition lsall (eaok : amap -> Prop) (okfn : ident -> Prop) (D L : N -> Prop) (st : lstmt) : Prop :=
   match st with
   | LSAttrNode n attrs _ => lvall okfn D L n /\ Forall (atall okfn D L) attrs
-  | LSEdge a b ea _ => lvall okfn D L a /\ lvall okfn D L b /\ amap_plain ea
+  | LSEdge a b ea _ => lvall okfn D L a /\ lvall okfn D L b /\ eaok ea
   | LSAttrEdge a b attrs _ => lvall okfn D L a /\ lvall okfn D L b /\ Forall (atall okfn D L) attrs
   | LSPrint args _ => Forall (fun o => match o with Some lv => lvall okfn D L lv | None => True end) args
   end.
@@ -275,14 +275,14 @@ Definition frall (okfn : ident -> Prop) (D L : N -> Prop) (f : vframe lvalue) : 
 Definition llall (okfn : ident -> Prop) (D L : N -> Prop) (l : varmap lvalue) : Prop := Forall (frall okfn D L) l.
 
 Section Impl.
-  Variables (okfn : ident -> Prop) (D D' L L' : N -> Prop).
+  Variables (eaok : amap -> Prop) (okfn : ident -> Prop) (D D' L L' : N -> Prop).
   Hypothesis HD : forall i, D i -> D' i.
   Hypothesis HL : forall i, L i -> L' i.
   Lemma thall_impl th : thall okfn D L th -> thall okfn D' L' th.
   Proof. unfold thall, tsall. destruct (th_state th); auto; [apply lvall_impl|apply vall_impl]; assumption. Qed.
   Lemma atall_impl l : Forall (atall okfn D L) l -> Forall (atall okfn D' L') l.
   Proof. intros H. eapply Forall_impl; [|exact H]. intros a. apply lvall_impl; assumption. Qed.
-  Lemma lsall_impl st : lsall okfn D L st -> lsall okfn D' L' st.
+  Lemma lsall_impl st : lsall eaok okfn D L st -> lsall eaok okfn D' L' st.
   Proof.
     destruct st; cbn [lsall].
     - intros [H1 H2]. split; [eapply lvall_impl; eauto|apply atall_impl, H2].
@@ -290,7 +290,7 @@ Section Impl.
     - intros (H1 & H2 & H3). split; [|split]; [eapply lvall_impl; eauto..|apply atall_impl, H3].
     - intros H. eapply Forall_impl; [|exact H]. intros [lv|]; auto. apply lvall_impl; assumption.
   Qed.
-  Lemma lsalls_impl l : Forall (lsall okfn D L) l -> Forall (lsall okfn D' L') l.
+  Lemma lsalls_impl l : Forall (lsall eaok okfn D L) l -> Forall (lsall eaok okfn D' L') l.
   Proof. intros H. eapply Forall_impl; [|exact H]. apply lsall_impl. Qed.
   Lemma frall_impl f : frall okfn D L f -> frall okfn D' L' f.
   Proof. intros H. eapply Forall_impl; [|exact H]. intros e. apply lvall_impl; assumption. Qed.
